@@ -111,6 +111,8 @@ def tlc_mc(module, cfg, tag, workers=4, timeout=3600, xmx="8g", extra=(), covera
     m = re.search(r"Error: Action property (\S+) is violated", out)
     if m:
         violated = m.group(1)
+    if "Temporal properties were violated" in out and not violated:
+        violated = "temporal"
     if "is violated" in out and not violated:
         violated = "property"
     if not ok and not violated:
